@@ -161,6 +161,12 @@ pub fn scenario(g: &mut G, ctx: &RunCtx) -> RunReport {
         }
     }
     let allow = !g.chance(1, 6);
+    // an Accept-Encoding the caller (or a session) had set: replaced by the library's announcement when
+    // compression is allowed, kept otherwise; what the server declares is decoded either way
+    let caller_ae: Option<&'static str> = if g.chance(1, 5) { Some(*g.pick(&["gzip;q=1.0, identity;q=0.5", "*", "br", "identity"])) } else { None };
+    if caller_ae.is_some() {
+        g.probe("caller-sets-accept-encoding");
+    }
     let (chunks, styles) = if framing == Framing::Chunked { bodyx::gen_chunks(g, wire_body.len()) } else { (vec![], vec![]) };
     let mut wire = Wire::default();
     wire.bytes = httpref::encode_head(200, "OK", &headers);
@@ -217,7 +223,7 @@ pub fn scenario(g: &mut G, ctx: &RunCtx) -> RunReport {
         cut_at: None,
     };
     // the caller: like bodyx::caller but with allow_compression drawn
-    let ran = bodyx::run_origin(&plan.script, &plan.faults, ctx, || caller(&plan, allow));
+    let ran = bodyx::run_origin(&plan.script, &plan.faults, ctx, || caller(&plan, allow, caller_ae));
     let mut stats = Stats::default();
     stats.absorb(&ran.history);
     let decodes = allow && matches!(coding, Coding::Gzip | Coding::Deflate);
@@ -228,12 +234,13 @@ pub fn scenario(g: &mut G, ctx: &RunCtx) -> RunReport {
             // Accept-Encoding on the wire iff compression is allowed
             let ae = ran.seen.requests.first().and_then(|(_, r)| r.as_ref().ok()).map(|r| r.header_str("accept-encoding"));
             let ae_ok = match &ae {
-                Some(Some(v)) => allow && v == "gzip, deflate",
-                Some(None) => !allow,
+                Some(Some(v)) if allow => v == "gzip, deflate",
+                Some(Some(v)) => caller_ae == Some(v.as_str()),
+                Some(None) => !allow && caller_ae.is_none(),
                 None => true,
             };
             if !ae_ok {
-                violation("accept-encoding-announcement", format!("allow_compression={} but Accept-Encoding on the wire is {:?}", allow, ae))
+                violation("accept-encoding-announcement", format!("allow_compression={} (caller's own Accept-Encoding: {:?}) but Accept-Encoding on the wire is {:?}", allow, caller_ae, ae))
             } else if !decodes || damage.is_empty() {
                 // expected bytes: decoded payload, or the wire body passed through
                 // (with compression disallowed the library still decodes what the server declares)
@@ -282,7 +289,13 @@ pub fn scenario(g: &mut G, ctx: &RunCtx) -> RunReport {
     }
 }
 
-fn caller(plan: &BodyPlan, allow: bool) -> bodyx::Observed {
+fn caller(plan: &BodyPlan, allow: bool, caller_ae: Option<&'static str>) -> bodyx::Observed {
     // same read program as the shared caller, with the compression switch
-    bodyx::caller_with(plan, false, |rb| rb.allow_compression(allow))
+    bodyx::caller_with(plan, false, |rb| {
+        let rb = match caller_ae {
+            Some(v) => rb.header("Accept-Encoding", v),
+            None => rb,
+        };
+        rb.allow_compression(allow)
+    })
 }
